@@ -78,6 +78,20 @@ func GenTyped(t *rapid.T) *TypedCase {
 		if rapid.IntRange(0, 5).Draw(t, "bad") == 0 {
 			ev.Bad = rapid.SampledFrom([]string{`{"a":"not-a-number"}`, `[]`, `"str"`, `{"a":1.5}`, `{"s":5}`, `null`, `{"b":"x"}`}).Draw(t, "badtext")
 		}
+		if c.Only12 && (ev.A == 12 || ev.A == 13) {
+			// with the chain ending at V2 a rejected V2 document would be the
+			// subscription's own payload; that is not what this test is about
+			ev.A += 2
+		}
+		if !c.Only12 && rapid.IntRange(0, 5).Draw(t, "rejected13") == 0 {
+			// a version-2 document with a == 13 is rejected by V2's decoder: as a
+			// stored V2 event, or (a == 12 in a V1 event) as the first step's output
+			if ev.Ver == 1 {
+				ev.A = 12
+			} else if ev.Ver == 2 {
+				ev.A = 13
+			}
+		}
 		c.Events = append(c.Events, ev)
 	}
 	return c
